@@ -165,10 +165,6 @@ def itemMeta (sCa sUa sEx : Bool) (m : Meta) (it : Item) : Meta :=
     ub := if it.ub ≠ "" then it.ub else m.ub,
     exp := if sEx then it.exp else m.exp }
 
-def Val.isSlice : Val → Bool
-  | .u32s _ => true
-  | _ => false
-
 /-! ## Spec -/
 namespace Spec
 
@@ -657,23 +653,22 @@ def incStep (cfg : Cfg) (ar : Arith) (now : Int) (s : State) (ty : NumTy) (k : K
     let st := settleAfterTouch cfg s o.i
     ⟨st.1, o.r, o.tags ++ st.2⟩
 
+/-- content after `Uint32SlicePush` (with the type check: a canonical slice) -/
+def pushSet (cfg : Cfg) (c : Content) (vs : List Nat) : SetRes :=
+  if cfg.pushChecksType then
+    ⟨{ slice := some (pushU32 c.vis.sliceD vs) }, decide (({ slice := some (pushU32 c.vis.sliceD vs) } : Content) ≠ c)⟩
+  else pushRaw c vs
+
 /-- one pair of `Uint32SlicePush`; Bool = an error was collected -/
 def pushOne (cfg : Cfg) (i : Inst) (p : Key × List Nat) : Inst × Bool × List Tag :=
-  let (t, tg0) := createTreasure i p.1
-  let typed : Bool := match t.c.vis with | .none => false | .u32s _ => false | _ => true
-  if cfg.pushChecksType && typed then (i, true, tg0)
+  let t := (createTreasure i p.1).1
+  let tg0 := (createTreasure i p.1).2
+  if cfg.pushChecksType && t.c.vis.scalar then (i, true, tg0)
   else
-    let sr : SetRes :=
-      if cfg.pushChecksType then
-        let old : List Nat := match t.c.vis with | .u32s l => l | _ => []
-        let c' : Content := { slice := some (pushU32 old p.2) }
-        ⟨c', decide (c' ≠ t.c)⟩
-      else pushRaw t.c p.2
-    let tgH : List Tag :=
-      (match sr.c.vis with | .u32s _ => false | _ => true) |> fun hidden => if hidden then [Tag.hiddenSlice] else []
+    let sr := pushSet cfg t.c p.2
+    let tgH : List Tag := if sr.c.vis.isSlice then [] else [Tag.hiddenSlice]
     let t' : MRec := { t with c := sr.c, changed := t.changed || sr.changed }
-    let (i1, _, tg1) := save cfg i p.1 t' sr.changed
-    (i1, false, tg0 ++ tgH ++ tg1)
+    ((save cfg i p.1 t' sr.changed).1, false, tg0 ++ tgH ++ (save cfg i p.1 t' sr.changed).2.2)
 
 def pushLoop (cfg : Cfg) : Inst → List (Key × List Nat) → Inst × Bool × List Tag
   | i, [] => (i, false, [])
@@ -688,6 +683,11 @@ inductive DelOut where
   | destroyed (tags : List Tag)
   | hang (tags : List Tag)
 
+def DelOut.tags : DelOut → List Tag
+  | .cont _ _ tg => tg
+  | .destroyed tg => tg
+  | .hang tg => tg
+
 def u32delOne (cfg : Cfg) (kind : Kind) (i : Inst) (p : Key × List Nat) : DelOut :=
   match AL.find p.1 i.recs with
   | none => .cont i false []
@@ -696,18 +696,18 @@ def u32delOne (cfg : Cfg) (kind : Kind) (i : Inst) (p : Key × List Nat) : DelOu
     if cfg.u32delChecksType && !isSlice then .cont i true []
     else
       let sr := delRaw t.c p.2
-      let tgH : List Tag := if isSlice && !(match t.c.vis with | .u32s _ => true | _ => false) then [Tag.hiddenSlice] else []
+      let tgH : List Tag := if isSlice && !t.c.vis.isSlice then [Tag.hiddenSlice] else []
       let t' : MRec := { t with c := sr.c, changed := t.changed || sr.changed }
-      let (i1, st, tg1) := save cfg i p.1 t' sr.changed
-      let size0 : Bool := match sr.c.slice with | none => true | some l => l.isEmpty
-      if size0 then
+      let i1 := (save cfg i p.1 t' sr.changed).1
+      let st := (save cfg i p.1 t' sr.changed).2.1
+      let tg1 := (save cfg i p.1 t' sr.changed).2.2
+      if (sr.c.slice.getD []).isEmpty then
         let tgN : List Tag := if isSlice then [] else [Tag.u32delNonSlice]
         -- the guard is still held unless Save let go of it (write interval 0, save not "same")
         let released := cfg.u32delReleases || (cfg.saveReleasesImmediate && kind == .p0 && st != .same)
         if !released then .hang (tgH ++ tg1 ++ tgN ++ [Tag.u32delDeadlock])
-        else
-          let i2 := deleteRec i1 p.1
-          if i2.recs.isEmpty then .destroyed (tgH ++ tg1 ++ tgN) else .cont i2 false (tgH ++ tg1 ++ tgN)
+        else if (deleteRec i1 p.1).recs.isEmpty then .destroyed (tgH ++ tg1 ++ tgN)
+        else .cont (deleteRec i1 p.1) false (tgH ++ tg1 ++ tgN)
       else .cont i1 false (tgH ++ tg1)
 
 /-- result: final instance (none = destroyed), error flag, hang flag, tags -/
@@ -808,7 +808,7 @@ def stepCore (cfg : Cfg) (ar : Arith) (now : Int) (s : State) (req : Req) : Out 
     | some t =>
       match t.c.slice with
       | none => ⟨s', .err "FailedPrecondition", tg⟩
-      | some l => ⟨s', .size l.length, tg ++ (if (match t.c.vis with | .u32s _ => true | _ => false) then [] else [Tag.hiddenSlice])⟩
+      | some l => ⟨s', .size l.length, tg ++ (if t.c.vis.isSlice then [] else [Tag.hiddenSlice])⟩
   | .hasVal k v =>
     let i := summon s
     let (s', tg) := settleAfterTouch cfg s i
@@ -817,7 +817,7 @@ def stepCore (cfg : Cfg) (ar : Arith) (now : Int) (s : State) (req : Req) : Out 
     | some t =>
       match t.c.slice with
       | none => ⟨s', .flag false, tg⟩
-      | some l => ⟨s', .flag (l.contains v), tg ++ (if (match t.c.vis with | .u32s _ => true | _ => false) then [] else [Tag.hiddenSlice])⟩
+      | some l => ⟨s', .flag (l.contains v), tg ++ (if t.c.vis.isSlice then [] else [Tag.hiddenSlice])⟩
 
 /-- `Close` (idle eviction or graceful stop): flush the write buffer, drop the instance -/
 def closeStep (cfg : Cfg) (s : State) : State × List Tag :=
